@@ -1,5 +1,7 @@
-(* CGLSMono.v — one CGLS step does not increase the functional
-   J(x) = ||y - A x||^2 + damp^2 ||x||^2  (ordered field, conj = id). *)
+(* CGLSMono.v — over an ordered field (conj = id): the functional
+   J(x) = ||y - A x||^2 + damp^2 ||x||^2 never increases along the CGLS
+   iteration (all inputs, all k); kold = 0 gives the damped normal
+   equations; the damped normal equations characterise the minimiser of J. *)
 From PV Require Export CGLS.
 Local Open Scope R_scope.
 
@@ -68,5 +70,167 @@ Proof.
   replace (0 + J (cl_x O (cgls_step O absf n A st))) with (J (cl_x O (cgls_step O absf n A st))) in H by ring.
   replace (p + J (cl_x O (cgls_step O absf n A st))) with (J (cl_x O (cgls_step O absf n A st)) + p) in H by ring.
   exact H.
+Qed.
+
+(* ---------- definiteness in an ordered field ---------- *)
+Lemma eq_dec0 (a : O) : a = 0 \/ a <> 0.
+Proof. destruct (rleb O a 0) eqn:E1, (rleb O 0 a) eqn:E2.
+  - left. apply rle_antisym; apply rleb_spec; auto.
+  - right. intros ->. rewrite (proj2 (rleb_spec O 0 0) (rle_refl O 0)) in E2. discriminate.
+  - right. intros ->. rewrite (proj2 (rleb_spec O 0 0) (rle_refl O 0)) in E1. discriminate.
+  - right. intros ->. rewrite (proj2 (rleb_spec O 0 0) (rle_refl O 0)) in E1. discriminate.
+Qed.
+Lemma nonneg_sum_zero (a b : O) : 0 <= a -> 0 <= b -> a + b = 0 -> a = 0 /\ b = 0.
+Proof. intros Ha Hb E. assert (A0 : a = 0).
+  { apply rle_antisym; auto. pose proof (rle_add O 0 b a Hb) as H. replace (0 + a) with a in H by ring.
+    replace (b + a) with (r0 O) in H by (rewrite <- E; ring). exact H. }
+  split; auto. rewrite A0 in E. rewrite <- E. ring. Qed.
+Lemma mul_zero (a b : O) : a * b = 0 -> a = 0 \/ b = 0.
+Proof. intros E. destruct (eq_dec0 a) as [Ha|Ha]; [left; auto | right].
+  replace b with ((a * b) / a) by (field; auto). rewrite E. field; auto. Qed.
+Lemma div0 (d : O) : 0 / d = 0.
+Proof. rewrite (Fdiv_def (fth O) 0 d). apply (ARmul_0_l (Rth_ARth (Eqsth O) (Eq_ext _ _ _) (rth O))) || (replace (0 * rinv O d) with (r0 O) by ring; reflexivity). Qed.
+Lemma dot_zero (v : vec) : dot O v v = 0 -> v = zeros O (length v).
+Proof. induction v as [|a v IH]; intros E; [reflexivity|].
+  change (dot O (a :: v) (a :: v)) with (conj O a * a + dot O v v) in E. rewrite conj_real in E.
+  destruct (nonneg_sum_zero _ _ (sq_nonneg a) (dot_nonneg v) E) as [E1 E2].
+  assert (a = 0) by (destruct (mul_zero _ _ E1); auto). subst a.
+  change (zeros O (length (r0 O :: v))) with (r0 O :: zeros O (length v)). f_equal. apply IH. exact E2. Qed.
+
+Hypothesis Habs : forall v : vec, absf (dot O v v) = dot O v v.
+Notation setup := (cgls_setup O absf n A y).
+Notation iter := (cgls_iter O absf n A).
+Notation step := (cgls_step O absf n A).
+Notation delta st := (dot O (cl_q O st) (cl_q O st) + d2 * dot O (cl_c O st) (cl_c O st)).
+
+(* <c, r> = kold = <r, r>: the previous line search was exact *)
+Definition dir_inv (st : clst O) : Prop :=
+  dot O (cl_c O st) (cl_r O st) = cl_kold O st /\ cl_kold O st = dot O (cl_r O st) (cl_r O st).
+
+Lemma setup_dir x0 : dir_inv (setup x0 damp).
+Proof. unfold dir_inv, cgls_setup; cbn [cl_c cl_r cl_kold]. rewrite Habs. split; reflexivity. Qed.
+
+(* <c, r> expressed through q and s *)
+Lemma dir_identity st : cl_inv O n A y damp st -> cl_rinv O n A damp st ->
+  dot O (cl_c O st) (cl_r O st) = dot O (cl_q O st) (cl_s O st) - d2 * dot O (cl_c O st) (cl_x O st).
+Proof. intros (Lx & Ls & Lc & Lr & Hd & Hs & Hq) Hr. rewrite Hr.
+  rewrite dot_vsub_r, dot_vscale_r by (rewrite mvH_length, vscale_length; auto).
+  rewrite Hq. rewrite (dot_mv_mvH O n A (cl_c O st) (cl_s O st)) by auto. reflexivity. Qed.
+
+Lemma degenerate st : cl_inv O n A y damp st -> cl_rinv O n A damp st -> dir_inv st ->
+  delta st = 0 -> cl_kold O st = 0.
+Proof.
+  intros Hinv Hr (Hdir & _) Hdel. rewrite <- Hdir, (dir_identity st Hinv Hr).
+  destruct Hinv as (Lx & Ls & Lc & Lr & Hd & Hs & Hq).
+  destruct (nonneg_sum_zero _ _ (dot_nonneg (cl_q O st)) (rle_mul O _ _ (sq_nonneg damp) (dot_nonneg (cl_c O st))) Hdel) as [E1 E2].
+  rewrite (dot_zero _ E1), dot_zeros_l.
+  destruct (mul_zero _ _ E2) as [E|E].
+  - rewrite E. ring.
+  - rewrite (dot_zero _ E), dot_zeros_l. ring.
+Qed.
+
+(* the new normal-equation residual: r' = r - a (A^H q + d2 c) *)
+Lemma step_r st : cl_inv O n A y damp st -> cl_rinv O n A damp st ->
+  let a := cl_kold O st / delta st in
+  cl_r O (step st) = vsub O (cl_r O st) (vscale O a (vadd O (mvH O n A (cl_q O st)) (vscale O d2 (cl_c O st)))).
+Proof.
+  intros (Lx & Ls & Lc & Lr & Hd & Hs & Hq) Hr a.
+  assert (Lq : length (cl_q O st) = length A) by (rewrite Hq; apply mv_length).
+  unfold cgls_step; cbn [cl_r]. rewrite Hd. fold a. rewrite Hr.
+  rewrite mvH_vsub_vscale by auto. apply r_update_eq; rewrite ?mvH_length; auto; congruence.
+Qed.
+
+Lemma step_dir st : cl_inv O n A y damp st -> cl_rinv O n A damp st -> dir_inv st -> dir_inv (step st).
+Proof.
+  intros Hinv Hr Hd0. pose proof (step_r st Hinv Hr) as Er. cbv zeta in Er.
+  pose proof (degenerate st Hinv Hr Hd0) as Hdeg.
+  destruct Hd0 as (Hdir & Hk). destruct Hinv as (Lx & Ls & Lc & Lr & Hd & Hs & Hq).
+  assert (Lq : length (cl_q O st) = length A) by (rewrite Hq; apply mv_length).
+  set (a := cl_kold O st / delta st) in *.
+  assert (Lr' : length (cl_r O (step st)) = n).
+  { rewrite Er. apply vsub_length_eq; auto. rewrite vscale_length. apply vadd_length_eq; rewrite ?mvH_length, ?vscale_length; auto. }
+  assert (Z : dot O (cl_c O st) (cl_r O (step st)) = 0).
+  { rewrite Er. rewrite dot_vsub_r, dot_vscale_r, dot_vadd_r, dot_vscale_r
+      by (rewrite ?vscale_length, ?mvH_length; auto; rewrite vadd_length, mvH_length, vscale_length by auto; lia).
+    rewrite Hdir. rewrite <- (dot_mv_mvH O n A (cl_c O st) (cl_q O st)) by auto. rewrite <- Hq.
+    destruct (eq_dec0 (delta st)) as [E|E].
+    - rewrite (Hdeg E). rewrite E. ring.
+    - unfold a. field. exact E. }
+  assert (K : cl_kold O (step st) = dot O (cl_r O (step st)) (cl_r O (step st))).
+  { unfold cgls_step at 1; cbn [cl_kold]. rewrite Habs. reflexivity. }
+  split; [|exact K].
+  rewrite K. unfold cgls_step at 1; cbn [cl_c]. fold (step st).
+  set (r' := cl_r O (step st)) in *.
+  change (vsub O (mvH O n A (vsub O (cl_s O st) (vscale O (cl_kold O st / (dot O (cl_q O st) (cl_q O st) + cl_damp O st * dot O (cl_c O st) (cl_c O st))) (cl_q O st))))
+            (vscale O (cl_damp O st) (vadd O (cl_x O st) (vscale O (cl_kold O st / (dot O (cl_q O st) (cl_q O st) + cl_damp O st * dot O (cl_c O st) (cl_c O st))) (cl_c O st)))))
+    with r'.
+  rewrite dot_vadd_l, dot_vscale_l, Z by (rewrite vscale_length; congruence). ring.
+Qed.
+
+Lemma dir_iter x0 k : x0_ok O n x0 -> dir_inv (iter k (setup x0 damp)).
+Proof. intros H. induction k as [|k IH]; [apply setup_dir|].
+  change (iter (S k) (setup x0 damp)) with (step (iter k (setup x0 damp))).
+  apply step_dir; auto; [apply cgls_inv_iter | apply cgls_rinv_iter]; auto. Qed.
+
+(* C10: the functional never increases from one CGLS iteration to the next — all inputs, all k *)
+Theorem cgls_functional_monotone x0 k : x0_ok O n x0 ->
+  J (cl_x O (iter (S k) (setup x0 damp))) <= J (cl_x O (iter k (setup x0 damp))).
+Proof.
+  intros H. change (iter (S k) (setup x0 damp)) with (step (iter k (setup x0 damp))).
+  set (st := iter k (setup x0 damp)).
+  assert (Hinv : cl_inv O n A y damp st) by (apply cgls_inv_iter; auto).
+  assert (Hr : cl_rinv O n A damp st) by (apply cgls_rinv_iter; auto).
+  assert (Hd : dir_inv st) by (apply dir_iter; auto).
+  destruct (eq_dec0 (delta st)) as [E|E].
+  - (* degenerate: kold = 0, the step length is 0 and x does not move *)
+    pose proof (degenerate st Hinv Hr Hd E) as K0.
+    destruct Hinv as (Lx & Ls & Lc & Lr & Hdm & Hs & Hq).
+    replace (cl_x O (step st)) with (cl_x O st); [apply rle_refl|].
+    unfold cgls_step; cbn [cl_x]. rewrite K0.
+    rewrite div0.
+    rewrite vscale_zero, Lc, <- Lx. symmetry; apply vadd_zeros_r.
+  - apply (cgls_step_descent st Hinv Hr (proj1 Hd) E).
+Qed.
+
+(* C09: a stationary point (kold = 0) satisfies the damped normal equations *)
+Theorem cgls_kold_zero_normal_eq x0 k : x0_ok O n x0 ->
+  let st := iter k (setup x0 damp) in
+  cl_kold O st = 0 ->
+  vsub O (mvH O n A (vsub O y (mv O A (cl_x O st)))) (vscale O d2 (cl_x O st)) = zeros O n.
+Proof.
+  intros H st K0. destruct (dir_iter x0 k H) as (_ & Hk). fold st in Hk.
+  destruct (cgls_inv_iter O absf n A WA y Hy damp x0 k H) as (_ & _ & _ & Lr & _ & Hs & _). fold st in Lr, Hs.
+  pose proof (cgls_rinv_iter O absf n A WA y Hy damp x0 k H) as Hr. fold st in Hr. unfold cl_rinv in Hr.
+  rewrite <- Hs, <- Hr, <- Lr. apply dot_zero. rewrite <- Hk. exact K0.
+Qed.
+
+(* C09: a solution of the damped normal equations minimises J *)
+Lemma vadd_vsub_cancel (x z : vec) : length x = length z -> vadd O x (vsub O z x) = z.
+Proof. revert z; induction x as [|a x IH]; intros [|b z] L; simpl in *; try discriminate; auto.
+  unfold vadd, vsub in *; simpl. rewrite IH by lia. f_equal; ring. Qed.
+Theorem normal_eq_minimises (x z : vec) : length x = n -> length z = n ->
+  vsub O (mvH O n A (vsub O y (mv O A x))) (vscale O d2 x) = zeros O n ->
+  J x <= J z.
+Proof.
+  intros Lx Lz G. set (h := vsub O z x). assert (Lh : length h = n) by (apply vsub_length_eq; auto).
+  assert (Ez : z = vadd O x (vscale O 1 h)) by (rewrite vscale_one; symmetry; apply vadd_vsub_cancel; congruence).
+  set (s := vsub O y (mv O A x)) in *. assert (Lsn : length s = length A) by (apply vsub_length_eq; auto; apply mv_length).
+  assert (E : J z = J x + (dot O (mv O A h) (mv O A h) + d2 * dot O h h)).
+  { unfold lsfun, lsres2. fold s. rewrite Ez at 1 2. rewrite mv_vadd, mv_vscale by (rewrite vscale_length; congruence).
+    rewrite <- (vsub_vsub_vscale O y (mv O A x) (mv O A h) 1) by (rewrite ?mv_length; auto). fold s.
+    rewrite Ez. rewrite !vscale_one.
+    rewrite dot_vsub_l, !dot_vsub_r by (rewrite ?mv_length; auto).
+    rewrite dot_vadd_l, !dot_vadd_r by congruence.
+    assert (Z : dot O (mv O A h) s = d2 * dot O h x).
+    { rewrite (dot_mv_mvH O n A h s) by auto.
+      assert (Z0 : dot O h (vsub O (mvH O n A s) (vscale O d2 x)) = 0) by (rewrite G; apply dot_zeros_r).
+      rewrite dot_vsub_r, dot_vscale_r in Z0 by (rewrite mvH_length, vscale_length; auto).
+      replace (dot O h (mvH O n A s)) with ((dot O h (mvH O n A s) - d2 * dot O h x) + d2 * dot O h x) by ring.
+      rewrite Z0. ring. }
+    rewrite (dot_sym s (mv O A h)), (dot_sym x h), Z. ring. }
+  rewrite E. set (p := dot O (mv O A h) (mv O A h) + d2 * dot O h h).
+  assert (Hp : 0 <= p) by (apply add_nonneg; [apply dot_nonneg | apply rle_mul; [apply sq_nonneg | apply dot_nonneg]]).
+  pose proof (rle_add O 0 p (J x) Hp) as H. replace (0 + J x) with (J x) in H by ring.
+  replace (p + J x) with (J x + p) in H by ring. exact H.
 Qed.
 End Ord.
